@@ -267,36 +267,38 @@ Record state := mkState {
   s_ecalls : list (Z * Z * Z);
   s_sent : list (Z * Z);
   s_rel : list (Z * Z);
+  s_recv : list (Z * Z);          (* ghost: descriptors received per import id (addImport calls) *)
   s_out : list output
 }.
-Definition set_shut (v : bool) (s : state) : state := mkState v (s_boot s) (s_qs s) (s_qgen s) (s_ans s) (s_exp s) (s_egen s) (s_imp s) (s_impgen s) (s_emb s) (s_mgen s) (s_queue s) (s_handles s) (s_lrefs s) (s_ndeliv s) (s_ncall s) (s_allocs s) (s_busy s) (s_dead s) (s_lcalls s) (s_ecalls s) (s_sent s) (s_rel s) (s_out s).
-Definition set_boot (v : bool) (s : state) : state := mkState (s_shut s) v (s_qs s) (s_qgen s) (s_ans s) (s_exp s) (s_egen s) (s_imp s) (s_impgen s) (s_emb s) (s_mgen s) (s_queue s) (s_handles s) (s_lrefs s) (s_ndeliv s) (s_ncall s) (s_allocs s) (s_busy s) (s_dead s) (s_lcalls s) (s_ecalls s) (s_sent s) (s_rel s) (s_out s).
-Definition set_qs (v : tbl question) (s : state) : state := mkState (s_shut s) (s_boot s) v (s_qgen s) (s_ans s) (s_exp s) (s_egen s) (s_imp s) (s_impgen s) (s_emb s) (s_mgen s) (s_queue s) (s_handles s) (s_lrefs s) (s_ndeliv s) (s_ncall s) (s_allocs s) (s_busy s) (s_dead s) (s_lcalls s) (s_ecalls s) (s_sent s) (s_rel s) (s_out s).
-Definition set_qgen (v : idgen) (s : state) : state := mkState (s_shut s) (s_boot s) (s_qs s) v (s_ans s) (s_exp s) (s_egen s) (s_imp s) (s_impgen s) (s_emb s) (s_mgen s) (s_queue s) (s_handles s) (s_lrefs s) (s_ndeliv s) (s_ncall s) (s_allocs s) (s_busy s) (s_dead s) (s_lcalls s) (s_ecalls s) (s_sent s) (s_rel s) (s_out s).
-Definition set_ans (v : list (Z * answer)) (s : state) : state := mkState (s_shut s) (s_boot s) (s_qs s) (s_qgen s) v (s_exp s) (s_egen s) (s_imp s) (s_impgen s) (s_emb s) (s_mgen s) (s_queue s) (s_handles s) (s_lrefs s) (s_ndeliv s) (s_ncall s) (s_allocs s) (s_busy s) (s_dead s) (s_lcalls s) (s_ecalls s) (s_sent s) (s_rel s) (s_out s).
-Definition set_exp (v : tbl expent) (s : state) : state := mkState (s_shut s) (s_boot s) (s_qs s) (s_qgen s) (s_ans s) v (s_egen s) (s_imp s) (s_impgen s) (s_emb s) (s_mgen s) (s_queue s) (s_handles s) (s_lrefs s) (s_ndeliv s) (s_ncall s) (s_allocs s) (s_busy s) (s_dead s) (s_lcalls s) (s_ecalls s) (s_sent s) (s_rel s) (s_out s).
-Definition set_egen (v : idgen) (s : state) : state := mkState (s_shut s) (s_boot s) (s_qs s) (s_qgen s) (s_ans s) (s_exp s) v (s_imp s) (s_impgen s) (s_emb s) (s_mgen s) (s_queue s) (s_handles s) (s_lrefs s) (s_ndeliv s) (s_ncall s) (s_allocs s) (s_busy s) (s_dead s) (s_lcalls s) (s_ecalls s) (s_sent s) (s_rel s) (s_out s).
-Definition set_imp (v : list (Z * impent)) (s : state) : state := mkState (s_shut s) (s_boot s) (s_qs s) (s_qgen s) (s_ans s) (s_exp s) (s_egen s) v (s_impgen s) (s_emb s) (s_mgen s) (s_queue s) (s_handles s) (s_lrefs s) (s_ndeliv s) (s_ncall s) (s_allocs s) (s_busy s) (s_dead s) (s_lcalls s) (s_ecalls s) (s_sent s) (s_rel s) (s_out s).
-Definition set_impgen (v : Z) (s : state) : state := mkState (s_shut s) (s_boot s) (s_qs s) (s_qgen s) (s_ans s) (s_exp s) (s_egen s) (s_imp s) v (s_emb s) (s_mgen s) (s_queue s) (s_handles s) (s_lrefs s) (s_ndeliv s) (s_ncall s) (s_allocs s) (s_busy s) (s_dead s) (s_lcalls s) (s_ecalls s) (s_sent s) (s_rel s) (s_out s).
-Definition set_emb (v : tbl embent) (s : state) : state := mkState (s_shut s) (s_boot s) (s_qs s) (s_qgen s) (s_ans s) (s_exp s) (s_egen s) (s_imp s) (s_impgen s) v (s_mgen s) (s_queue s) (s_handles s) (s_lrefs s) (s_ndeliv s) (s_ncall s) (s_allocs s) (s_busy s) (s_dead s) (s_lcalls s) (s_ecalls s) (s_sent s) (s_rel s) (s_out s).
-Definition set_mgen (v : idgen) (s : state) : state := mkState (s_shut s) (s_boot s) (s_qs s) (s_qgen s) (s_ans s) (s_exp s) (s_egen s) (s_imp s) (s_impgen s) (s_emb s) v (s_queue s) (s_handles s) (s_lrefs s) (s_ndeliv s) (s_ncall s) (s_allocs s) (s_busy s) (s_dead s) (s_lcalls s) (s_ecalls s) (s_sent s) (s_rel s) (s_out s).
-Definition set_queue (v : list Z) (s : state) : state := mkState (s_shut s) (s_boot s) (s_qs s) (s_qgen s) (s_ans s) (s_exp s) (s_egen s) (s_imp s) (s_impgen s) (s_emb s) (s_mgen s) v (s_handles s) (s_lrefs s) (s_ndeliv s) (s_ncall s) (s_allocs s) (s_busy s) (s_dead s) (s_lcalls s) (s_ecalls s) (s_sent s) (s_rel s) (s_out s).
-Definition set_handles (v : list hstate) (s : state) : state := mkState (s_shut s) (s_boot s) (s_qs s) (s_qgen s) (s_ans s) (s_exp s) (s_egen s) (s_imp s) (s_impgen s) (s_emb s) (s_mgen s) (s_queue s) v (s_lrefs s) (s_ndeliv s) (s_ncall s) (s_allocs s) (s_busy s) (s_dead s) (s_lcalls s) (s_ecalls s) (s_sent s) (s_rel s) (s_out s).
-Definition set_lrefs (v : list (Z * Z)) (s : state) : state := mkState (s_shut s) (s_boot s) (s_qs s) (s_qgen s) (s_ans s) (s_exp s) (s_egen s) (s_imp s) (s_impgen s) (s_emb s) (s_mgen s) (s_queue s) (s_handles s) v (s_ndeliv s) (s_ncall s) (s_allocs s) (s_busy s) (s_dead s) (s_lcalls s) (s_ecalls s) (s_sent s) (s_rel s) (s_out s).
-Definition set_ndeliv (v : Z) (s : state) : state := mkState (s_shut s) (s_boot s) (s_qs s) (s_qgen s) (s_ans s) (s_exp s) (s_egen s) (s_imp s) (s_impgen s) (s_emb s) (s_mgen s) (s_queue s) (s_handles s) (s_lrefs s) v (s_ncall s) (s_allocs s) (s_busy s) (s_dead s) (s_lcalls s) (s_ecalls s) (s_sent s) (s_rel s) (s_out s).
-Definition set_ncall (v : Z) (s : state) : state := mkState (s_shut s) (s_boot s) (s_qs s) (s_qgen s) (s_ans s) (s_exp s) (s_egen s) (s_imp s) (s_impgen s) (s_emb s) (s_mgen s) (s_queue s) (s_handles s) (s_lrefs s) (s_ndeliv s) v (s_allocs s) (s_busy s) (s_dead s) (s_lcalls s) (s_ecalls s) (s_sent s) (s_rel s) (s_out s).
-Definition set_allocs (v : Z) (s : state) : state := mkState (s_shut s) (s_boot s) (s_qs s) (s_qgen s) (s_ans s) (s_exp s) (s_egen s) (s_imp s) (s_impgen s) (s_emb s) (s_mgen s) (s_queue s) (s_handles s) (s_lrefs s) (s_ndeliv s) (s_ncall s) v (s_busy s) (s_dead s) (s_lcalls s) (s_ecalls s) (s_sent s) (s_rel s) (s_out s).
-Definition set_busy (v : list (Z * Z * Z)) (s : state) : state := mkState (s_shut s) (s_boot s) (s_qs s) (s_qgen s) (s_ans s) (s_exp s) (s_egen s) (s_imp s) (s_impgen s) (s_emb s) (s_mgen s) (s_queue s) (s_handles s) (s_lrefs s) (s_ndeliv s) (s_ncall s) (s_allocs s) v (s_dead s) (s_lcalls s) (s_ecalls s) (s_sent s) (s_rel s) (s_out s).
-Definition set_dead (v : list (Z * Z)) (s : state) : state := mkState (s_shut s) (s_boot s) (s_qs s) (s_qgen s) (s_ans s) (s_exp s) (s_egen s) (s_imp s) (s_impgen s) (s_emb s) (s_mgen s) (s_queue s) (s_handles s) (s_lrefs s) (s_ndeliv s) (s_ncall s) (s_allocs s) (s_busy s) v (s_lcalls s) (s_ecalls s) (s_sent s) (s_rel s) (s_out s).
-Definition set_lcalls (v : list (Z * Z)) (s : state) : state := mkState (s_shut s) (s_boot s) (s_qs s) (s_qgen s) (s_ans s) (s_exp s) (s_egen s) (s_imp s) (s_impgen s) (s_emb s) (s_mgen s) (s_queue s) (s_handles s) (s_lrefs s) (s_ndeliv s) (s_ncall s) (s_allocs s) (s_busy s) (s_dead s) v (s_ecalls s) (s_sent s) (s_rel s) (s_out s).
-Definition set_ecalls (v : list (Z * Z * Z)) (s : state) : state := mkState (s_shut s) (s_boot s) (s_qs s) (s_qgen s) (s_ans s) (s_exp s) (s_egen s) (s_imp s) (s_impgen s) (s_emb s) (s_mgen s) (s_queue s) (s_handles s) (s_lrefs s) (s_ndeliv s) (s_ncall s) (s_allocs s) (s_busy s) (s_dead s) (s_lcalls s) v (s_sent s) (s_rel s) (s_out s).
-Definition set_sent (v : list (Z * Z)) (s : state) : state := mkState (s_shut s) (s_boot s) (s_qs s) (s_qgen s) (s_ans s) (s_exp s) (s_egen s) (s_imp s) (s_impgen s) (s_emb s) (s_mgen s) (s_queue s) (s_handles s) (s_lrefs s) (s_ndeliv s) (s_ncall s) (s_allocs s) (s_busy s) (s_dead s) (s_lcalls s) (s_ecalls s) v (s_rel s) (s_out s).
-Definition set_rel (v : list (Z * Z)) (s : state) : state := mkState (s_shut s) (s_boot s) (s_qs s) (s_qgen s) (s_ans s) (s_exp s) (s_egen s) (s_imp s) (s_impgen s) (s_emb s) (s_mgen s) (s_queue s) (s_handles s) (s_lrefs s) (s_ndeliv s) (s_ncall s) (s_allocs s) (s_busy s) (s_dead s) (s_lcalls s) (s_ecalls s) (s_sent s) v (s_out s).
-Definition set_out (v : list output) (s : state) : state := mkState (s_shut s) (s_boot s) (s_qs s) (s_qgen s) (s_ans s) (s_exp s) (s_egen s) (s_imp s) (s_impgen s) (s_emb s) (s_mgen s) (s_queue s) (s_handles s) (s_lrefs s) (s_ndeliv s) (s_ncall s) (s_allocs s) (s_busy s) (s_dead s) (s_lcalls s) (s_ecalls s) (s_sent s) (s_rel s) v.
+Definition set_shut (v : bool) (s : state) : state := mkState v (s_boot s) (s_qs s) (s_qgen s) (s_ans s) (s_exp s) (s_egen s) (s_imp s) (s_impgen s) (s_emb s) (s_mgen s) (s_queue s) (s_handles s) (s_lrefs s) (s_ndeliv s) (s_ncall s) (s_allocs s) (s_busy s) (s_dead s) (s_lcalls s) (s_ecalls s) (s_sent s) (s_rel s) (s_recv s) (s_out s).
+Definition set_boot (v : bool) (s : state) : state := mkState (s_shut s) v (s_qs s) (s_qgen s) (s_ans s) (s_exp s) (s_egen s) (s_imp s) (s_impgen s) (s_emb s) (s_mgen s) (s_queue s) (s_handles s) (s_lrefs s) (s_ndeliv s) (s_ncall s) (s_allocs s) (s_busy s) (s_dead s) (s_lcalls s) (s_ecalls s) (s_sent s) (s_rel s) (s_recv s) (s_out s).
+Definition set_qs (v : tbl question) (s : state) : state := mkState (s_shut s) (s_boot s) v (s_qgen s) (s_ans s) (s_exp s) (s_egen s) (s_imp s) (s_impgen s) (s_emb s) (s_mgen s) (s_queue s) (s_handles s) (s_lrefs s) (s_ndeliv s) (s_ncall s) (s_allocs s) (s_busy s) (s_dead s) (s_lcalls s) (s_ecalls s) (s_sent s) (s_rel s) (s_recv s) (s_out s).
+Definition set_qgen (v : idgen) (s : state) : state := mkState (s_shut s) (s_boot s) (s_qs s) v (s_ans s) (s_exp s) (s_egen s) (s_imp s) (s_impgen s) (s_emb s) (s_mgen s) (s_queue s) (s_handles s) (s_lrefs s) (s_ndeliv s) (s_ncall s) (s_allocs s) (s_busy s) (s_dead s) (s_lcalls s) (s_ecalls s) (s_sent s) (s_rel s) (s_recv s) (s_out s).
+Definition set_ans (v : list (Z * answer)) (s : state) : state := mkState (s_shut s) (s_boot s) (s_qs s) (s_qgen s) v (s_exp s) (s_egen s) (s_imp s) (s_impgen s) (s_emb s) (s_mgen s) (s_queue s) (s_handles s) (s_lrefs s) (s_ndeliv s) (s_ncall s) (s_allocs s) (s_busy s) (s_dead s) (s_lcalls s) (s_ecalls s) (s_sent s) (s_rel s) (s_recv s) (s_out s).
+Definition set_exp (v : tbl expent) (s : state) : state := mkState (s_shut s) (s_boot s) (s_qs s) (s_qgen s) (s_ans s) v (s_egen s) (s_imp s) (s_impgen s) (s_emb s) (s_mgen s) (s_queue s) (s_handles s) (s_lrefs s) (s_ndeliv s) (s_ncall s) (s_allocs s) (s_busy s) (s_dead s) (s_lcalls s) (s_ecalls s) (s_sent s) (s_rel s) (s_recv s) (s_out s).
+Definition set_egen (v : idgen) (s : state) : state := mkState (s_shut s) (s_boot s) (s_qs s) (s_qgen s) (s_ans s) (s_exp s) v (s_imp s) (s_impgen s) (s_emb s) (s_mgen s) (s_queue s) (s_handles s) (s_lrefs s) (s_ndeliv s) (s_ncall s) (s_allocs s) (s_busy s) (s_dead s) (s_lcalls s) (s_ecalls s) (s_sent s) (s_rel s) (s_recv s) (s_out s).
+Definition set_imp (v : list (Z * impent)) (s : state) : state := mkState (s_shut s) (s_boot s) (s_qs s) (s_qgen s) (s_ans s) (s_exp s) (s_egen s) v (s_impgen s) (s_emb s) (s_mgen s) (s_queue s) (s_handles s) (s_lrefs s) (s_ndeliv s) (s_ncall s) (s_allocs s) (s_busy s) (s_dead s) (s_lcalls s) (s_ecalls s) (s_sent s) (s_rel s) (s_recv s) (s_out s).
+Definition set_impgen (v : Z) (s : state) : state := mkState (s_shut s) (s_boot s) (s_qs s) (s_qgen s) (s_ans s) (s_exp s) (s_egen s) (s_imp s) v (s_emb s) (s_mgen s) (s_queue s) (s_handles s) (s_lrefs s) (s_ndeliv s) (s_ncall s) (s_allocs s) (s_busy s) (s_dead s) (s_lcalls s) (s_ecalls s) (s_sent s) (s_rel s) (s_recv s) (s_out s).
+Definition set_emb (v : tbl embent) (s : state) : state := mkState (s_shut s) (s_boot s) (s_qs s) (s_qgen s) (s_ans s) (s_exp s) (s_egen s) (s_imp s) (s_impgen s) v (s_mgen s) (s_queue s) (s_handles s) (s_lrefs s) (s_ndeliv s) (s_ncall s) (s_allocs s) (s_busy s) (s_dead s) (s_lcalls s) (s_ecalls s) (s_sent s) (s_rel s) (s_recv s) (s_out s).
+Definition set_mgen (v : idgen) (s : state) : state := mkState (s_shut s) (s_boot s) (s_qs s) (s_qgen s) (s_ans s) (s_exp s) (s_egen s) (s_imp s) (s_impgen s) (s_emb s) v (s_queue s) (s_handles s) (s_lrefs s) (s_ndeliv s) (s_ncall s) (s_allocs s) (s_busy s) (s_dead s) (s_lcalls s) (s_ecalls s) (s_sent s) (s_rel s) (s_recv s) (s_out s).
+Definition set_queue (v : list Z) (s : state) : state := mkState (s_shut s) (s_boot s) (s_qs s) (s_qgen s) (s_ans s) (s_exp s) (s_egen s) (s_imp s) (s_impgen s) (s_emb s) (s_mgen s) v (s_handles s) (s_lrefs s) (s_ndeliv s) (s_ncall s) (s_allocs s) (s_busy s) (s_dead s) (s_lcalls s) (s_ecalls s) (s_sent s) (s_rel s) (s_recv s) (s_out s).
+Definition set_handles (v : list hstate) (s : state) : state := mkState (s_shut s) (s_boot s) (s_qs s) (s_qgen s) (s_ans s) (s_exp s) (s_egen s) (s_imp s) (s_impgen s) (s_emb s) (s_mgen s) (s_queue s) v (s_lrefs s) (s_ndeliv s) (s_ncall s) (s_allocs s) (s_busy s) (s_dead s) (s_lcalls s) (s_ecalls s) (s_sent s) (s_rel s) (s_recv s) (s_out s).
+Definition set_lrefs (v : list (Z * Z)) (s : state) : state := mkState (s_shut s) (s_boot s) (s_qs s) (s_qgen s) (s_ans s) (s_exp s) (s_egen s) (s_imp s) (s_impgen s) (s_emb s) (s_mgen s) (s_queue s) (s_handles s) v (s_ndeliv s) (s_ncall s) (s_allocs s) (s_busy s) (s_dead s) (s_lcalls s) (s_ecalls s) (s_sent s) (s_rel s) (s_recv s) (s_out s).
+Definition set_ndeliv (v : Z) (s : state) : state := mkState (s_shut s) (s_boot s) (s_qs s) (s_qgen s) (s_ans s) (s_exp s) (s_egen s) (s_imp s) (s_impgen s) (s_emb s) (s_mgen s) (s_queue s) (s_handles s) (s_lrefs s) v (s_ncall s) (s_allocs s) (s_busy s) (s_dead s) (s_lcalls s) (s_ecalls s) (s_sent s) (s_rel s) (s_recv s) (s_out s).
+Definition set_ncall (v : Z) (s : state) : state := mkState (s_shut s) (s_boot s) (s_qs s) (s_qgen s) (s_ans s) (s_exp s) (s_egen s) (s_imp s) (s_impgen s) (s_emb s) (s_mgen s) (s_queue s) (s_handles s) (s_lrefs s) (s_ndeliv s) v (s_allocs s) (s_busy s) (s_dead s) (s_lcalls s) (s_ecalls s) (s_sent s) (s_rel s) (s_recv s) (s_out s).
+Definition set_allocs (v : Z) (s : state) : state := mkState (s_shut s) (s_boot s) (s_qs s) (s_qgen s) (s_ans s) (s_exp s) (s_egen s) (s_imp s) (s_impgen s) (s_emb s) (s_mgen s) (s_queue s) (s_handles s) (s_lrefs s) (s_ndeliv s) (s_ncall s) v (s_busy s) (s_dead s) (s_lcalls s) (s_ecalls s) (s_sent s) (s_rel s) (s_recv s) (s_out s).
+Definition set_busy (v : list (Z * Z * Z)) (s : state) : state := mkState (s_shut s) (s_boot s) (s_qs s) (s_qgen s) (s_ans s) (s_exp s) (s_egen s) (s_imp s) (s_impgen s) (s_emb s) (s_mgen s) (s_queue s) (s_handles s) (s_lrefs s) (s_ndeliv s) (s_ncall s) (s_allocs s) v (s_dead s) (s_lcalls s) (s_ecalls s) (s_sent s) (s_rel s) (s_recv s) (s_out s).
+Definition set_dead (v : list (Z * Z)) (s : state) : state := mkState (s_shut s) (s_boot s) (s_qs s) (s_qgen s) (s_ans s) (s_exp s) (s_egen s) (s_imp s) (s_impgen s) (s_emb s) (s_mgen s) (s_queue s) (s_handles s) (s_lrefs s) (s_ndeliv s) (s_ncall s) (s_allocs s) (s_busy s) v (s_lcalls s) (s_ecalls s) (s_sent s) (s_rel s) (s_recv s) (s_out s).
+Definition set_lcalls (v : list (Z * Z)) (s : state) : state := mkState (s_shut s) (s_boot s) (s_qs s) (s_qgen s) (s_ans s) (s_exp s) (s_egen s) (s_imp s) (s_impgen s) (s_emb s) (s_mgen s) (s_queue s) (s_handles s) (s_lrefs s) (s_ndeliv s) (s_ncall s) (s_allocs s) (s_busy s) (s_dead s) v (s_ecalls s) (s_sent s) (s_rel s) (s_recv s) (s_out s).
+Definition set_ecalls (v : list (Z * Z * Z)) (s : state) : state := mkState (s_shut s) (s_boot s) (s_qs s) (s_qgen s) (s_ans s) (s_exp s) (s_egen s) (s_imp s) (s_impgen s) (s_emb s) (s_mgen s) (s_queue s) (s_handles s) (s_lrefs s) (s_ndeliv s) (s_ncall s) (s_allocs s) (s_busy s) (s_dead s) (s_lcalls s) v (s_sent s) (s_rel s) (s_recv s) (s_out s).
+Definition set_sent (v : list (Z * Z)) (s : state) : state := mkState (s_shut s) (s_boot s) (s_qs s) (s_qgen s) (s_ans s) (s_exp s) (s_egen s) (s_imp s) (s_impgen s) (s_emb s) (s_mgen s) (s_queue s) (s_handles s) (s_lrefs s) (s_ndeliv s) (s_ncall s) (s_allocs s) (s_busy s) (s_dead s) (s_lcalls s) (s_ecalls s) v (s_rel s) (s_recv s) (s_out s).
+Definition set_rel (v : list (Z * Z)) (s : state) : state := mkState (s_shut s) (s_boot s) (s_qs s) (s_qgen s) (s_ans s) (s_exp s) (s_egen s) (s_imp s) (s_impgen s) (s_emb s) (s_mgen s) (s_queue s) (s_handles s) (s_lrefs s) (s_ndeliv s) (s_ncall s) (s_allocs s) (s_busy s) (s_dead s) (s_lcalls s) (s_ecalls s) (s_sent s) v (s_recv s) (s_out s).
+Definition set_recv (v : list (Z * Z)) (s : state) : state := mkState (s_shut s) (s_boot s) (s_qs s) (s_qgen s) (s_ans s) (s_exp s) (s_egen s) (s_imp s) (s_impgen s) (s_emb s) (s_mgen s) (s_queue s) (s_handles s) (s_lrefs s) (s_ndeliv s) (s_ncall s) (s_allocs s) (s_busy s) (s_dead s) (s_lcalls s) (s_ecalls s) (s_sent s) (s_rel s) v (s_out s).
+Definition set_out (v : list output) (s : state) : state := mkState (s_shut s) (s_boot s) (s_qs s) (s_qgen s) (s_ans s) (s_exp s) (s_egen s) (s_imp s) (s_impgen s) (s_emb s) (s_mgen s) (s_queue s) (s_handles s) (s_lrefs s) (s_ndeliv s) (s_ncall s) (s_allocs s) (s_busy s) (s_dead s) (s_lcalls s) (s_ecalls s) (s_sent s) (s_rel s) (s_recv s) v.
 
 (* ------------------------------------------------------------------ initial state *)
 Definition init (boot : bool) : state :=
-  mkState false boot [] gen0 [] [] gen0 [] 0 [] gen0 [] [] (if boot then [(0, 1)] else []) 0 0 0 [] [] [] [] [] [] [].
+  mkState false boot [] gen0 [] [] gen0 [] 0 [] gen0 [] [] (if boot then [(0, 1)] else []) 0 0 0 [] [] [] [] [] [] [] [].
 
 Definition hres := res (state * list output * bool).   (* bool: the handler's error aborts the connection *)
 
@@ -356,17 +358,18 @@ Definition imp_release (c : cfg) (i g : Z) (s : state) : res (state * list outpu
   end.
 
 (* Conn.addImport *)
+Definition bump_recv (i : Z) (s : state) : state := set_recv (cadd i 1 (s_recv s)) s.   (* ghost *)
 Definition add_import (c : cfg) (i : Z) (s : state) : state * cap :=
   match aget i (s_imp s) with
   | Some e =>
     if 0 <? i_refs e then
-      (set_imp (aput i (mkImp (i_wire e + 1) (i_gen e) (i_refs e + 1)) (s_imp s)) s, CImp i (i_gen e))
+      (bump_recv i (set_imp (aput i (mkImp (i_wire e + 1) (i_gen e) (i_refs e + 1)) (s_imp s)) s), CImp i (i_gen e))
     else
       let g := if fx20 c then s_impgen s + 1 else i_gen e + 1 in
-      (set_impgen (s_impgen s + 1) (set_imp (aput i (mkImp (i_wire e + 1) g 1) (s_imp s)) s), CImp i g)
+      (bump_recv i (set_impgen (s_impgen s + 1) (set_imp (aput i (mkImp (i_wire e + 1) g 1) (s_imp s)) s)), CImp i g)
   | None =>
     let g := if fx20 c then s_impgen s + 1 else 0 in
-    (set_impgen (s_impgen s + 1) (set_imp (aput i (mkImp 1 g 1) (s_imp s)) s), CImp i g)
+    (bump_recv i (set_impgen (s_impgen s + 1) (set_imp (aput i (mkImp 1 g 1) (s_imp s)) s)), CImp i g)
   end.
 
 (* ------------------------------------------------------------------ embargoes (export.go) *)
